@@ -32,6 +32,8 @@ class Unit:
         self._maythrow = {}
         self.used_loop_keys = set()
         self.rules = collections.Counter()
+        self.literals = collections.OrderedDict()   # string literal text (with quotes) -> small id
+        self.slices = {}                            # fn key -> AST statement kind at which the extracted slice starts
 
     # -- services used by FnTranslator ---------------------------------------------------------------
     def need_type(self, t):
@@ -89,6 +91,16 @@ class Unit:
         for c in chain:
             if c not in self.excs:
                 self.excs.append(c)
+
+    def literal_id(self, lit):
+        if lit not in self.literals:
+            self.literals[lit] = len(self.literals) + 1
+            if len(self.literals) >= 63:
+                raise Unsupported('more than 62 distinct string literals in one unit')
+        return self.literals[lit]
+
+    def slice_for(self, key):
+        return self.slices.get(key)
 
     def fn_cname(self, key):
         if key in self.externals and 'cname' in self.externals[key]:
@@ -392,20 +404,20 @@ class Unit:
     def prototype(self, key):
         fn = self._fn(key, need_body=False)
         ft = FnTranslator(self.P, self, key, fn)
-        ft.ret_t = self.P.tp.parse(ft._ret_type_string(fn))
+        ps = ft.signature()
         params = []
-        if ft.is_method:
-            params.append('%s* self' % ft.ctype(('rec', ft.owner)))
-        for c in fn.get('inner', []) or []:
-            if c.get('kind') == 'ParmVarDecl':
-                pt = self.P.typeof(c)
-                nm = c.get('name') or 'p%d' % len(params)
-                if pt[0] == 'ref':
-                    params.append('%s* %s' % (ft.ctype(pt[1]), nm))
-                else:
-                    params.append(ft.decl(pt, nm))
+        for nm, t, isref in ps:
+            if strip_ref(t)[0] == 'opaque' or (t[0] == 'ptr' and t[1][0] == 'opaque'):
+                continue
+            params.append('%s* %s' % (ft.ctype(t[1]), nm) if isref else ft.decl(t, nm))
         rett = 'void' if ft.ret_t[0] == 'void' else ft.ctype(ft.ret_t)
         return '%s %s(%s)' % (rett, self.fn_cname(key), ', '.join(params) if params else 'void')
+
+    def signature(self, key):
+        fn = self._fn(key, need_body=False)
+        ft = FnTranslator(self.P, self, key, fn)
+        ps = [p for p in ft.signature() if not (strip_ref(p[1])[0] == 'opaque' or (p[1][0] == 'ptr' and p[1][1][0] == 'opaque'))]
+        return ps, ft.ret_t
 
     # -- emission ------------------------------------------------------------------------------------
     def emit(self):
